@@ -9,8 +9,11 @@ object it leaves, has explicit decidable hypotheses and an `example` on a concre
   §3  verneed_reports_spec, verdef_reports_spec
   §4  reloc_resolved_reports_spec (relocation `get_entry` with symbol resolution = `reloc_reports_spec` ∘
       `symbols_reports_spec`), reloc_resolved_nosymtab
-  §5  truncated files (C17): prefix_reloc_sound, prefix_dynamic_sound, prefix_notes_sound, prefix_array_sound,
-      prefix_versym_sound
+  §5  truncated files (C17): prefixLoadedC_of_load, prefix_secResident_c, pready_inv; prefix_array_sound,
+      prefix_versym_sound, prefix_notes_sound, prefix_reloc_sound, prefix_dynamic_sound (+ `exDynView`: the three cases
+      of the dynamic accessor computed on concrete prefixes of `exImg4` that load)
+Images: `exImg` (Props/ComposeTables.lean), `exImg2` (SysV hash, modinfo, verneed/verdef, REL linked to `.symtab`),
+`exImg3` (= `exImg2` with the relocation section's `sh_link` out of range), `exImg4` (section data behind the header table).
 -/
 import ElfioVerif.Lemmas.LoadedTables2
 set_option linter.unusedSimpArgs false
@@ -991,5 +994,44 @@ example : Spec.dynGet (specDynEntries exImg 5) none 0 = .nostr 1 1 ∧
     Spec.dynGet (specDynEntries exImg 5) (linkedTable exImg 5) 0 = .ok 1 1 [0x66, 0x6f, 0x6f] ∧
     Spec.dynGet (specDynEntries exImg 5) none 2 = Spec.dynGet (specDynEntries exImg 5) (linkedTable exImg 5) 2 := by
   decide +kernel
+
+/-! non-vacuity of the three cases of `prefix_dynamic_sound`, on concrete prefixes that DO load (lazily): a 269-byte
+ELF32 / LSB image whose section header table follows the ELF header directly and whose section data come in the order
+`.shstrtab` (212), `.dynamic` (240: DT_NEEDED "foo", DT_INIT 0x1000, DT_NULL; link 2), `.strtab` (264) -/
+
+def exImg4 : Bytes :=
+  [127, 69, 76, 70, 1, 1, 1, 0, 0, 0, 0, 0, 0, 0, 0, 0, 1, 0, 3, 0, 1, 0, 0, 0, 0, 0, 0, 0, 0, 0, 0, 0, 52, 0, 0, 0, 0, 0, 0, 0, 52, 0, 0, 0, 0, 0, 40, 0, 4, 0, 3, 0, 0, 0, 0, 0, 0, 0, 0, 0, 0, 0, 0, 0, 0, 0, 0, 0, 0, 0, 0, 0, 0, 0, 0, 0, 0, 0, 0, 0, 0, 0, 0, 0, 0, 0, 0, 0, 0, 0, 0, 0, 1, 0, 0, 0, 6, 0, 0, 0, 0, 0, 0, 0, 0, 0, 0, 0, 240, 0, 0, 0, 24, 0, 0, 0, 2, 0, 0, 0, 0, 0, 0, 0, 1, 0, 0, 0, 8, 0, 0, 0, 10, 0, 0, 0, 3, 0, 0, 0, 0, 0, 0, 0, 0, 0, 0, 0, 8, 1, 0, 0, 5, 0, 0, 0, 0, 0, 0, 0, 0, 0, 0, 0, 1, 0, 0, 0, 0, 0, 0, 0, 18, 0, 0, 0, 3, 0, 0, 0, 0, 0, 0, 0, 0, 0, 0, 0, 212, 0, 0, 0, 28, 0, 0, 0, 0, 0, 0, 0, 0, 0, 0, 0, 1, 0, 0, 0, 0, 0, 0, 0, 0, 46, 100, 121, 110, 97, 109, 105, 99, 0, 46, 115, 116, 114, 116, 97, 98, 0, 46, 115, 104, 115, 116, 114, 116, 97, 98, 0, 1, 0, 0, 0, 1, 0, 0, 0, 12, 0, 0, 0, 0, 16, 0, 0, 0, 0, 0, 0, 0, 0, 0, 0, 0, 102, 111, 111, 0]
+
+
+/-- what the dynamic accessor of section 1 shows on the lazily loaded first `k` bytes: load result, count,
+    entries 0 and 1 -/
+def exDynView (k : Nat) : Option (Bool × Nat × GetRes × GetRes) :=
+  match load {} { data := exImg4.take k } true with
+  | .ok rp =>
+    match inspect rp.obj (.dynNum 1), inspect rp.obj (.dyn 1 0), inspect rp.obj (.dyn 1 1) with
+    | .ok (_, .num n), .ok (_, .dyn r0), .ok (_, .dyn r1) => some (rp.ok, n, r0, r1)
+    | _, _, _ => none
+  | _ => none
+
+/-- 250 bytes: the data of `.dynamic` is cut — the load succeeds, ONE entry is reported, it is the fabricated
+    DT_NULL, index 1 is refused;  266 bytes: `.dynamic` is complete, `.strtab` is cut — the complete file's count,
+    DT_NEEDED comes back false with tag and value intact, DT_INIT as in the complete file;  269 bytes: the file -/
+example : exDynView 250 = some (true, 1, .ok 0 0 [], .invalid) ∧
+    exDynView 266 = some (true, 3, .nostr 1 1, .ok 12 0x1000 []) ∧
+    exDynView 269 = some (true, 3, .ok 1 1 [0x66, 0x6f, 0x6f], .ok 12 0x1000 []) := by decide +kernel
+
+theorem exImg4_wf : WellFormedImage exImg4 := by decide +kernel
+/-- … and the theorem on every prefix of that image that loads -/
+example (k : Nat) (kind : StreamKind) (isLazy : Bool) (rp : LoadRes)
+    (hp : load {} { data := exImg4.take k, kind := kind } isLazy = .ok rp) (hok : rp.ok = true) (idx : BitVec 64) :
+    ∃ o1 n r, inspect rp.obj (.dynNum 1) = .ok (o1, .num n) ∧ inspect rp.obj (.dyn 1 idx) = .ok (o1, .dyn r) ∧
+      ((n = 0 ∧ r = .invalid) ∨
+       (n = 1 ∧ r = (if idx.toNat = 0 then .ok 0 0 [] else .invalid)) ∨
+       (n = Spec.dynCount (specDynEntries exImg4 1) ∧
+         (C12.outOf r = Spec.dynGet (specDynEntries exImg4 1) (linkedTable exImg4 1) idx.toNat ∨
+          C12.outOf r = Spec.dynGet (specDynEntries exImg4 1) none idx.toNat))) := by
+  obtain ⟨o1, n, r, g1, g2, _, g3⟩ := prefix_dynamic_sound exImg4 k rp.obj
+    (prefixLoadedC_of_load exImg4 exImg4_wf {} rfl k kind isLazy rp hp hok) 1 (by decide +kernel) (by decide +kernel) idx
+  exact ⟨o1, n, r, g1, g2, g3⟩
 
 end ElfioVerif.ComposeTables
